@@ -429,3 +429,14 @@ Theorem C12_headings_example :
   = [ ([83], [[115]; s_help]); (s_options, [[97]; [100]; s_help]); ([78], [[98]]); ([72], [[99]]) ].
 Proof. exact nh_renders. Qed.
 Print Assumptions C12_headings_example.
+
+(** round 3: the [OPTIONS] tag of the usage line, declaratively (so: options that are all hidden, required or
+    members of a required group never cause it) *)
+Theorem C12_options_tag_iff : forall c,
+  needs_options_tag c = true <->
+  exists f, In f (hc_args c) /\ ha_is_positional f = false
+    /\ opt_is (ha_long f) s_help = false /\ opt_is (ha_long f) s_version = false
+    /\ is_help_or_version_action (ha_action f) = false
+    /\ ha_hide f = false /\ ha_required f = false /\ in_required_group c f = false.
+Proof. exact options_tag_iff. Qed.
+Print Assumptions C12_options_tag_iff.
